@@ -161,6 +161,13 @@ def run(pid, tier, seed, world):
         if pid in ('C11', 'C02', 'C05'):
             out += [o for o in lexer_regex_spec(world)
                     if pid != 'C05' or 'NUMBER' in o['name'] or 'STRING' in o['name']]
+        if pid == 'C18':
+            from .bounded.runner import obligations as bounded_obligations
+            out += bounded_obligations(
+                'bounded.genIndex', 'c18_genindex.py', tier, seed,
+                "if __name__ == '__main__':\n    import sys\n    sys.path.insert(0, %r)\n"
+                "    from pyvc.bounded import c18_genindex as H\n"
+                "    sys.exit(H.replay(REPLAY['witness'], '%%(clause)s'))\n" % VERIF)
         if pid == 'C17':
             from .lockstep import c17_obligations
             out += c17_obligations(tier, seed)
